@@ -172,7 +172,7 @@ fn malformed(r: &mut Rng, tol: f64, cases: &mut Vec<Case>) {
 }
 
 pub fn generate(seed: u64, n: usize, thorough: bool, _corpus: Option<&str>) -> Vec<Case> {
-    let mut r = Rng::new(seed);
+    let mut r = Rng::new(seed).fork(); // fork: `Rng::new(s+1)` is `Rng::new(s)` shifted by one draw, the fork decorrelates seeds
     let tol = gen_lp::measured_tolerance();
     let mut cases = vec![];
     EFFORT.store(if thorough { 500 } else { 100 }, std::sync::atomic::Ordering::Relaxed);
